@@ -36,6 +36,7 @@ def main():
     ap.add_argument("--no-checks", action="store_true")
     ap.add_argument("--families", default=None)
     ap.add_argument("--tier", default="quick")
+    ap.add_argument("--harvest", action="store_true", help="copy up to 3 replays per property into regress/<prop>/<seed name>-k.json")
     a = ap.parse_args()
     seed = os.path.abspath(a.seed_dir)
     scratch = tempfile.mkdtemp(prefix="vv-seed-", dir="/dev/shm")
@@ -77,7 +78,15 @@ def main():
                 if a.families:
                     cmd += ["--families", a.families]
                 t0 = time.time()
+                rdir = os.path.join(VERIF, "replays", prop)
+                before = set(os.listdir(rdir)) if os.path.isdir(rdir) else set()
                 rc, out = run(cmd, env=dict(os.environ, VERIF_REPO=wt))
+                if a.harvest and os.path.isdir(rdir):
+                    new = sorted(set(os.listdir(rdir)) - before, key=lambda f: os.path.getsize(os.path.join(rdir, f)))
+                    gd = os.path.join(VERIF, "regress", prop)
+                    os.makedirs(gd, exist_ok=True)
+                    for k, f in enumerate(new[:3]):
+                        shutil.copy(os.path.join(rdir, f), os.path.join(gd, "seed-%s-%d.json" % (os.path.basename(seed), k)))
                 lines = [l for l in out.splitlines() if "conda" not in l]
                 viol = [l for l in lines if l.startswith("VIOLATION") or l.startswith("   ")]
                 print("\n".join(l[:300] for l in viol[:12]))
